@@ -20,8 +20,10 @@ import (
 	"sync"
 	"time"
 
+	"github.com/tonkeeper/tongo/boc"
 	"github.com/tonkeeper/tongo/liteclient"
 	"github.com/tonkeeper/tongo/tl"
+	"github.com/tonkeeper/tongo/tlb"
 	"github.com/tonkeeper/tongo/ton"
 	"verifharness/h"
 	"verifharness/tlexec"
@@ -44,6 +46,8 @@ func init() {
 		"tl.hw.accountid":     exHwAccountID,
 		"tl.hw.blockidext":    exHwBlockIDExt,
 		"go.tl.hw":            goHandwritten,
+		"go.tl.hw.vmstack":    goVmStack,
+		"go.tl.toolong":       goTooLong,
 		"go.regen.liteclient": func([]string) string { return goRegen("liteclient", "generated.go", "lite_api.tl") },
 		"go.regen.integers":   func([]string) string { return goRegen("tlb", "integers.go") },
 	} {
@@ -292,6 +296,72 @@ func goHandwritten(a []string) string {
 	return "ok"
 }
 
+// goVmStack: tlb.VmStack.MarshalTL is the TL `bytes` encoding of the stack's BOC, and UnmarshalTL reads it back
+// (the BOC and TL-B layers themselves are properties C01/C03). args: n tiny integers.
+func goVmStack(a []string) string {
+	var st tlb.VmStack
+	for _, x := range a {
+		n, _ := strconv.ParseInt(x, 10, 64)
+		st = append(st, tlb.VmStackValue{SumType: "VmStkTinyInt", VmStkTinyInt: n})
+	}
+	got, err := tl.Marshal(st)
+	if err != nil {
+		return failf("hw-vmstack", "marshal: %v", err)
+	}
+	cell := boc.NewCell()
+	if err := tlb.Marshal(cell, st); err != nil {
+		return failf("hw-vmstack", "tlb: %v", err)
+	}
+	bocBytes, err := cell.ToBocCustom(false, false, false, 0)
+	if err != nil {
+		return failf("hw-vmstack", "boc: %v", err)
+	}
+	want, _ := tlmini.EncBytes(bocBytes)
+	if !bytes.Equal(got, want) {
+		return failf("hw-vmstack", "layout: %x, want bytes(boc) = %x", got, want)
+	}
+	var back tlb.VmStack
+	r := bytes.NewReader(append(append([]byte{}, got...), 0xaa))
+	if err := tl.Unmarshal(r, &back); err != nil || r.Len() != 1 {
+		return failf("hw-vmstack", "unmarshal: %v, %d bytes left", err, r.Len())
+	}
+	// the TL-B codec of VmStack writes top-first and reads bottom-first (documented convention, property C03)
+	rev := make(tlb.VmStack, len(back))
+	for i := range back {
+		rev[len(back)-1-i] = back[i]
+	}
+	again, err := tl.Marshal(rev)
+	if err != nil || !bytes.Equal(again, got) || len(back) != len(st) {
+		return failf("hw-vmstack", "round trip")
+	}
+	return "ok"
+}
+
+// goTooLong: a byte string that has no TL representation (2^24 bytes or more: the long length prefix has three bytes)
+// must be refused, not encoded under a truncated length. args: length kind(bytes|string)
+func goTooLong(a []string) string {
+	n, _ := strconv.Atoi(a[0])
+	data := make([]byte, n)
+	var v any = data
+	if a[1] == "string" {
+		v = string(data)
+	}
+	b, err := tl.Marshal(v)
+	if n >= 1<<24 {
+		if err == nil {
+			var back []byte
+			if tl.Unmarshal(bytes.NewReader(b), &back) != nil || len(back) != n {
+				return failf("toolong", "Marshal of %d bytes returns %d bytes with prefix %x and no error; they decode to %d bytes", n, len(b), b[:4], len(back))
+			}
+		}
+		return "ok"
+	}
+	if err != nil || len(b) != 4+n+(4-n%4)%4 {
+		return failf("toolong", "Marshal of %d bytes: %v", n, err)
+	}
+	return "ok"
+}
+
 // goRegen (translator X6): run the repository's own generator into a scratch directory and compare its output, after
 // gofmt (the checked-in files are gofmt-ed, the generators write an unformatted header), byte for byte with the
 // checked-in file.
@@ -419,6 +489,17 @@ func genC10(g *h.G) {
 		}
 	}
 
+	for _, n := range []int{1<<24 - 1, 1 << 24, 1<<24 + 1, 1<<24 + 255, 1 << 25} {
+		g.Emit("go.tl.toolong", fmt.Sprint(n), "bytes")
+		g.Emit("go.tl.toolong", fmt.Sprint(n), "string")
+	}
+	for i := 0; i < g.Scale(30, 300); i++ {
+		var xs []string
+		for k := g.Rng.Intn(6); k >= 0; k-- {
+			xs = append(xs, fmt.Sprint(int64(g.U64())))
+		}
+		g.Emit("go.tl.hw.vmstack", xs...)
+	}
 	// hand-written codecs
 	for i := 0; i < g.Scale(200, 3000); i++ {
 		wc := fmt.Sprint(uint32(g.U64()))
